@@ -442,6 +442,23 @@ func (r *Runner) step(i int, op Op) {
 		r.setPhaseAll("restart")
 		r.Rep.Event("restart.rm."+rmClass(op.Rm), 1)
 		r.CheckAll("after-restart")
+		if r.M.CheckVHash && !r.failed {
+			// the value hash kept in the (possibly rebuilt) index decides whether a set of the
+			// same value is "not really set": probe it for a few live keys right after the restart
+			var live []string
+			for k, e := range r.M.M {
+				if e.Ver > 0 && ref.ValidKey(k) {
+					live = append(live, k)
+				}
+			}
+			sort.Strings(live)
+			for j := 0; j < 3 && len(live) > 0 && !r.failed; j++ {
+				k := live[(i*7+j*13+len(live)/2)%len(live)]
+				e := r.M.M[k]
+				r.Rep.Event("restart.same_value_probes", 1)
+				r.step(i, Op{K: "set", Key: k, Val: &ref.ValueSpec{Class: "raw", Raw: string(e.Value)}, Flag: e.Flag})
+			}
+		}
 	case "gc":
 		info, ran, err := r.S.GC(op.Sel, op.Merge, op.Pref)
 		r.tracef("gc sel=%d merge=%v pref=%q -> ran=%v %s err=%v", op.Sel, op.Merge, op.Pref, ran, info, err)
